@@ -86,11 +86,16 @@ Theorem C11_rset_pattern_ends_in_paren : forall ps, rset_pattern ps = [] \/ last
 Proof. exact rset_pattern_good. Qed.
 Print Assumptions C11_rset_pattern_ends_in_paren.
 
-(* without the wrapper the statement is false: "a{" steps past the terminator, a lone backslash spins
-   (both unreachable: rset_make is the only caller of regcomp) *)
-Theorem C11_parse_bare_refuted : parse_pat [97; 123]%N = OOB SBrace /\ parse_pat [92]%N = NoFuel.
-Proof. exact (conj bare_brace_oob bare_backslash_spins). Qed.
+(* without the wrapper the statement is false: a lone backslash spins (unreachable: rset_make is the only caller of
+   regcomp and refuses a pattern that ends in a lone backslash: fix 3139e7f).  Since fix 66f245a "a{" no longer steps
+   past the terminator: the repetition is refused, the flag re_bad is set, regcomp rejects *)
+Theorem C11_parse_bare_refuted : parse_pat [92]%N = NoFuel.
+Proof. exact bare_backslash_spins. Qed.
 Print Assumptions C11_parse_bare_refuted.
+
+Theorem C11_bare_brace_rejected : parse_pat [97; 123]%N = Ok (None, []) /\ parse_bad [97; 123]%N = true.
+Proof. exact bare_brace_rejected. Qed.
+Print Assumptions C11_bare_brace_rejected.
 
 (* the estimate rnode_count is computed in C ints; the model computes it in Z.  What makes the C arithmetic safe:
    every result is saturated at NINST (on EVERY return path, also the unrepeated-node one), the parser only returns
